@@ -268,7 +268,7 @@ var attrType = map[string](func(t time.Time) string){
 	},
 	"QUARTER": func(t time.Time) string {
 		month := int(t.Month())
-		return strconv.Itoa(month/3 + 1)
+		return strconv.Itoa((month-1)/3 + 1)
 	},
 }
 
